@@ -26,6 +26,10 @@
      ManyToOne) the tracer hands out exactly the specification's answers - same requests, same readers, same
      packets, same order - holds the same pending requests and writes, and never indexes out of range;
      C02_discipline_invariant: the discipline keeps the specification's invariant (every step).
+   - C02_loops_disciplined / C02_loops_refine (Node/Loops.v): the forward loops of the three node kinds, as lists of
+     calls per request (Read; then Write(nil, request), or Link for every derived packet followed by Write for every
+     one), in EVERY interleaving with one another and with Receive calls, packets being fresh, keep the discipline;
+     hence in every schedule of the node loops the tracer hands out exactly the specification's answers.
    The discipline is a computable predicate; the correspondence run checks that every call sequence the harness
    drives through the real Tracer satisfies it and that the real Tracer's answers equal the specification's
    (c2ok_spec), besides comparing them with the tracer model.
@@ -34,7 +38,7 @@
    OneToOne / OneToMany / ManyToOne nodes in chains, fan-out, diamonds and fan-in with actions held open and
    released in random order, every source answer checked against a reference evaluation of the workflow. *)
 From Coq Require Import List Arith NArith ZArith Bool.
-From Uf Require Import Packet.Writer Node.Tracer Node.TracerProofs Node.Spec Node.Refine.
+From Uf Require Import Packet.Writer Node.Tracer Node.TracerProofs Node.Spec Node.Refine Node.Loops.
 Import ListNotations.
 
 Theorem C02_exactly_once_in_order : forall ops r,
@@ -107,3 +111,32 @@ Example C02_ex_spec :
   s_out (s_run ops) = [(0, 1, Pk (PErr [7%Z])); (0, 4, Pk (PAtom 4)); (0, 5, Pk (PAtom 9)); (1, 6, Pk (PAtom 9))] /\
   t_out (t_run ops) = s_out (s_run ops).
 Proof. vm_compute. repeat split; reflexivity. Qed.
+
+Theorem C02_loops_disciplined : forall jobs ops, jobs_ok jobs -> exec (map job_ops jobs) ops -> disciplined ops = true.
+Proof. exact loops_disciplined. Qed.
+Print Assumptions C02_loops_disciplined.
+
+Theorem C02_loops_refine : forall jobs ops, jobs_ok jobs -> exec (map job_ops jobs) ops ->
+  t_out (t_run ops) = s_out (s_run ops) /\ t_crash (t_run ops) = false.
+Proof. exact loops_refine. Qed.
+Print Assumptions C02_loops_refine.
+
+(* non-vacuity: two pipelined requests of one reader - the first fans out into two packets (one accepted downstream and
+   answered later, one with nobody downstream), the second is answered directly - interleaved; the first answer is the
+   join of the downstream answer and the unconnected packet's own payload, and it comes out first *)
+Example C02_ex_loops :
+  let j1 := mkjob 0 1 (PAtom 1) [(2, PAtom 10, Some 0, true); (3, PAtom 11, Some 1, false)] in
+  let j2 := mkjob 0 4 (PAtom 4) [] in
+  let ops := [TRead 0 1 (PAtom 1); TRead 0 4 (PAtom 4); TLink 1 2 (PAtom 10); TWrite None 4 false; TLink 1 3 (PAtom 11);
+              TWrite (Some 0) 2 true; TReceive 0 (Some (Pk (PAtom 100))); TWrite (Some 1) 3 false] in
+  jobs_ok [j1; j2] /\ exec (map job_ops [j1; j2]) ops /\
+  s_out (s_run ops) = [(0, 1, Pk (PSlice [PAtom 100; PAtom 11])); (0, 4, Pk (PAtom 4))].
+Proof.
+  cbv zeta. split; [|split].
+  - split; [repeat constructor; cbn; intuition congruence|]. cbn. repeat constructor; cbn; intuition congruence.
+  - cbn [map job_ops j_reader j_req j_pay j_out link_op write_op q_of fst snd app].
+    apply (ex_step [] _ _ [_]). apply (ex_step [_] _ _ []). apply (ex_step [] _ _ [_]). apply (ex_step [_] _ _ []).
+    apply (ex_step [] _ _ [_]). apply (ex_step [] _ _ [_]). apply ex_recv. apply (ex_step [] _ _ [_]).
+    apply ex_done. repeat constructor.
+  - vm_compute. reflexivity.
+Qed.
